@@ -755,4 +755,84 @@ VP_FUZZABLE (inv33_d)
 VP_FUZZABLE (inv44_f)
 VP_FUZZABLE (inv44_d)
 
+// The overflow guard of the determinant forms on matrices of wide dynamic range (Matrix22): entries m * 2^e with
+// e in +-60 (float) / +-500 (double) so that neither the products nor the determinant leave the normal range, signs
+// chosen so that a d and -b c do not cancel (or one off-diagonal entry is zero).  Exact determinant and quotients in
+// quad.  Where some exact quotient cofactor/det exceeds the largest finite T, every non-throwing determinant form
+// must return the identity; where every quotient stays below 1/min() (the library's own, conservative threshold is
+// there) the results must be finite.  Between the two either answer is accepted.
+template <class T> static void guard22_case (vp::Ctx& c, const char* tn)
+{
+    typedef std::numeric_limits<T> L;
+    vp::Src&  s    = c.s;
+    const int EMAX = sizeof (T) == 4 ? 60 : 500;
+    T         v[4];
+    int       zero = s.chance (96) ? 1 + (int) s.below (2) : -1; // index 1 or 2 (off-diagonal) set to zero
+    bool      steep = s.coin (); // small diagonal, large off-diagonal entries: the off-diagonal quotients overflow
+    for (int i = 0; i < 4; ++i)
+    {
+        int    e = !steep ? (int) s.range (-EMAX, EMAX) : ((i == 0 || i == 3) ? (int) s.range (-EMAX, -EMAX / 4) : (int) s.range (EMAX / 4, EMAX));
+        double m = s.coin () ? 1.0 : s.uniform (1.0, 2.0);
+        v[i]     = (T) std::ldexp (m, e);
+    }
+    // layout: v0 = x00, v1 = x01, v2 = x10, v3 = x11; signs: a d > 0 either way, b c < 0 so that det = a d - b c adds
+    bool sa = s.coin (), sb = s.coin ();
+    if (sa) { v[0] = -v[0]; v[3] = -v[3]; }
+    if (sb) v[1] = -v[1]; else v[2] = -v[2];
+    if (zero > 0) v[zero] = 0;
+    Matrix22<T> M (v[0], v[1], v[2], v[3]);
+    VP_NOTE (c, tn << " M = ((" << v[0] << " " << v[1] << ") (" << v[2] << " " << v[3] << "))");
+    quad a = v[0], b = v[1], cc = v[2], d = v[3];
+    quad det = a * d - b * cc;
+    quad cof[2][2] = { { d, -b }, { -cc, a } };
+    quad Q = 0;
+    int  qi = 0, qj = 0;
+    for (int i = 0; i < 2; ++i)
+        for (int j = 0; j < 2; ++j)
+            if (qabs (cof[i][j] / det) > Q)
+            {
+                Q  = qabs (cof[i][j] / det);
+                qi = i;
+                qj = j;
+            }
+    const quad TMAX = (quad) L::max (), TINV = 1 / (quad) L::min ();
+    bool must_identity = Q > TMAX * (1 + (quad) 1e-6), must_finite = Q < TINV * (1 - (quad) 1e-6);
+    c.label (must_identity ? 0 : (must_finite ? 1 : 2));
+    if (must_identity) c.label (3 + 2 * qi + qj);
+    if (qabs (det) < 1) c.label (7); else c.label (8);
+    if (must_identity && cof[qi][qj] < 0) c.label (9);
+    c.nt (must_identity || !must_finite);
+    Matrix22<T> X[4];
+    const char* form[4] = { "inverse()", "inverse(false)", "invert()", "invert(false)" };
+    X[0] = M.inverse ();
+    X[1] = M.inverse (false);
+    X[2] = M;
+    X[2].invert ();
+    X[3] = M;
+    X[3].invert (false);
+    for (int f = 0; f < 4; ++f)
+    {
+        bool ident = X[f][0][0] == 1 && X[f][0][1] == 0 && X[f][1][0] == 0 && X[f][1][1] == 1;
+        bool fin   = std::isfinite (X[f][0][0]) && std::isfinite (X[f][0][1]) && std::isfinite (X[f][1][0]) && std::isfinite (X[f][1][1]);
+        if (must_identity)
+            VP_REQUIRE (c, ident, "guard22-identity", tn << " " << form[f] << " = ((" << X[f][0][0] << " " << X[f][0][1] << ") (" << X[f][1][0] << " " << X[f][1][1] << ")) but cofactor[" << qi << "][" << qj << "] / det = " << qstr (cof[qi][qj] / det) << " overflows: the identity is required");
+        if (must_finite)
+            VP_REQUIRE (c, fin, "guard22-nonfinite", tn << " " << form[f] << " = ((" << X[f][0][0] << " " << X[f][0][1] << ") (" << X[f][1][0] << " " << X[f][1][1] << ")) although every exact quotient is below 1/min()");
+        for (int i = 0; i < 2; ++i)
+            for (int j = 0; j < 2; ++j)
+                VP_REQUIRE (c, same<T> (X[f][i][j], X[0][i][j]), "guard22-forms-differ", tn << " " << form[f] << " differs from inverse() in entry " << i << j);
+    }
+}
+
+VP_RANDOM (guard22, 600000, 12000000, "Matrix22<float|double> with entries m * 2^e, e in +-60 / +-500, m = 1 or in [1,2), signs without cancellation in the determinant, 1/2 with small diagonal and large off-diagonal exponents, 3/8 with one off-diagonal zero (triangular): exact determinant and quotients cofactor/det in quad; some quotient > max: inverse(), inverse(false), invert(), invert(false) must all return the identity; all quotients < 1/min(): all finite; the four forms agree bit for bit; non-trivial = identity required or in the band between 1/min() and max")
+{
+    if (c.s.coin ())
+        guard22_case<double> (c, "M22d");
+    else
+        guard22_case<float> (c, "M22f");
+}
+VP_LABELS (guard22, "identity_required", "finite_required", "between_thresholds", "overflowing_cofactor_00", "overflowing_cofactor_01", "overflowing_cofactor_10", "overflowing_cofactor_11", "absdet_lt_1", "absdet_ge_1", "overflowing_cofactor_negative")
+// (without cancellation |det| >= |a d|, so only the off-diagonal quotients can overflow)
+VP_REQUIRE_LABELS (guard22, "identity_required", "finite_required", "between_thresholds", "overflowing_cofactor_01", "overflowing_cofactor_10", "absdet_lt_1", "absdet_ge_1", "overflowing_cofactor_negative")
+
 VP_MAIN ("C06")
